@@ -99,7 +99,39 @@ def default_events(cn, node):
     return out
 
 
-def event_conditions(cn, region, events_of=default_events, unroll=0, drop=lambda atom: False, pre=None):
+def _subst(text, args):
+    import re as _re
+    return _re.sub(r"\$(\d+)", lambda m: args[int(m.group(1))] if int(m.group(1)) < len(args) else m.group(0), text)
+
+
+def _inlined(cn, stmt, events_of, unroll, drop, known, depth):
+    """Events of member functions called from `stmt` that the templates do not know by name (helpers a maintainer
+    extracted): their events, with parameters replaced by the caller's canonical arguments, and their conditions."""
+    out = []
+    if known is None or depth >= 2:
+        return out
+    from .canon import Canon
+    for n in walk(stmt):
+        if n.get("k") not in ("CXXMemberCallExpr", "CallExpr"):
+            continue
+        c = n.get("callee")
+        if c is None or c["n"] in known or c.get("f") != "ctpg" or c.get("parent") != cn.fn.o.get("parent"):
+            continue
+        g = cn.fn.facts.by_id.get(c["id"])
+        if g is None or g.body is None or g is cn.fn:
+            continue
+        args = [cn.c(a) for a in A.call_args(n)]
+        sub, _ = event_conditions(Canon(g), g.body, events_of=events_of, unroll=unroll, drop=drop, known=known,
+                                  _depth=depth + 1)
+        for (k, t), d in sub.items():
+            if k in ("return", "break", "continue"):
+                continue
+            out.append((k, _subst(t, args), {frozenset((_subst(a, args), p) for a, p in conj) for conj in d}, n))
+    return out
+
+
+def event_conditions(cn, region, events_of=default_events, unroll=0, drop=lambda atom: False, pre=None, known=None,
+                     _depth=0):
     """{(kind, text): DNF} for the events reached on the structured paths through `region`.
     DNF = set of frozensets of (atom, polarity). `drop(atom_text)` removes irrelevant atoms (e.g. verbose tests)."""
     table = {}
@@ -131,6 +163,15 @@ def event_conditions(cn, region, events_of=default_events, unroll=0, drop=lambda
                     conj = frozenset((t, p) for t, p in a if not drop(t))
                     if _consistent(conj):
                         table.setdefault(key, set()).add(conj)
+            if e[0] == "stmt" and known is not None:
+                for k2, t2, d2, node2 in _inlined(cn, e[1], events_of, unroll, drop, known, _depth):
+                    nodes.setdefault((k2, t2), node2)
+                    for a in alts:
+                        base = frozenset((t, p) for t, p in a if not drop(t))
+                        for conj2 in d2:
+                            conj = base | frozenset((t, p) for t, p in conj2 if not drop(t))
+                            if _consistent(conj):
+                                table.setdefault((k2, t2), set()).add(conj)
     return table, nodes
 
 
